@@ -60,6 +60,10 @@ def _pl_premise(prog, roles) -> Optional[str]:
     return _PL_PREMISE[key]
 
 
+def _in_kernel(I) -> bool:
+    return any(f.label.endswith("._compute") or "._compute.<locals>" in f.label for f in I.stack)
+
+
 def _parents(fn_node):
     m = {}
     for n in ast.walk(fn_node):
@@ -91,13 +95,24 @@ def _read_only_under_rank_guard(I, node) -> bool:
         if isinstance(n, ast.Name) and n.id == name and isinstance(n.ctx, ast.Load):
             g = n
             guarded = False
+
+            def rank_guard(test):
+                return isinstance(test, ast.Compare) and len(test.ops) == 1 and isinstance(test.left, ast.Attribute) \
+                    and isinstance(test.comparators[0], ast.Attribute) and test.left.attr == test.comparators[0].attr
+
             while g in par and g is not loop:
                 p = par[g]
-                if isinstance(p, ast.If) and g in p.body and isinstance(p.test, ast.Compare) and len(p.test.ops) == 1 \
-                        and isinstance(p.test.left, ast.Attribute) and isinstance(p.test.comparators[0], ast.Attribute) \
-                        and p.test.left.attr == p.test.comparators[0].attr:
+                if isinstance(p, ast.If) and g in p.body and rank_guard(p.test):
                     guarded = True
                     break
+                # guard-clause style: an earlier statement of the same block is `if <rank comparison>: continue`
+                body = getattr(p, "body", None)
+                if isinstance(body, list) and g in body:
+                    for prev in body[: body.index(g)]:
+                        if isinstance(prev, ast.If) and rank_guard(prev.test) and len(prev.body) == 1 and isinstance(prev.body[0], ast.Continue) and not prev.orelse:
+                            guarded = True
+                    if guarded:
+                        break
                 g = p
             if not guarded:
                 return False
@@ -126,7 +141,7 @@ def install_lemmas(w, prog, roles, lemmas: Dict[str, str]) -> None:
                     I.event("lemma", node, name="L-SHARE", why=lemmas["L-SHARE"])
                     return replace(res, rng=res.rng.meet(Interval(0.0, 1.0, False, False)))
         # ---- L-PL
-        if a.sym[0] == "call" and a.sym[1] == "math.exp" and b.sym[0] == "elem" and "_compute" in I.cur_func():
+        if a.sym[0] == "call" and a.sym[1] == "math.exp" and b.sym[0] == "elem" and _in_kernel(I):
             why = _pl_premise(prog, roles)
             if why is None and _read_only_under_rank_guard(I, node):
                 lemmas["L-PL"] = ("stage probability exp(z_i)/SQ_q in (0, 1] where consumed: the normaliser is filled with the same exponential over exactly the set it is applied "
@@ -148,7 +163,7 @@ def install_lemmas(w, prog, roles, lemmas: Dict[str, str]) -> None:
         fi = fv.fi
         if fi is None or fi.module.name != common or fi.name not in ("w", "wt") or not isinstance(rv, Num) or rv.rng is None:
             return None
-        if len(I.stack) < 1 or "_compute" not in I.cur_func():
+        if not _in_kernel(I):
             return None
         lemmas["A-W"] = ("assumption A-W: the variance corrections w and wt lie in [0, 1] (numeric fact not provable by intervals: v*(v + x - t) has no interval sign); "
                          "premise R17.1 (non-cancelling CDF) is checked")
